@@ -257,10 +257,25 @@ func (m *monitor) judgeShape(e engine, bs []batch, control bool) {
 	}
 }
 
+// fmtVals writes byte vectors as one hex string and field elements as a list.
+func fmtVals(v []*big.Int) any {
+	if len(v) < 16 {
+		return hexBig(v)
+	}
+	b := make([]byte, len(v))
+	for i, x := range v {
+		if x == nil || !x.IsUint64() || x.Uint64() > 255 {
+			return hexBig(v)
+		}
+		b[i] = byte(x.Uint64())
+	}
+	return fmt.Sprintf("%x", b)
+}
+
 func withGot(d map[string]any, e engine, got, want []*big.Int) map[string]any {
 	d["engine"] = e.String()
-	d["circuit_digest"] = hexBig(got)
-	d["native_digest"] = hexBig(want)
+	d["circuit_digest"] = fmtVals(got)
+	d["native_digest"] = fmtVals(want)
 	return d
 }
 
@@ -275,7 +290,7 @@ func (m *monitor) reportFailure(e engine, b batch, got []*big.Int, err error) {
 	switch {
 	case got != nil && !eqVals(got, b.expect(0)):
 		r.Count("MISMATCH."+b.class(0)+"."+e.name, 1)
-		r.Violation("digest-mismatch/"+cls, fmt.Sprintf("in-circuit digest %v differs from native %v (%s)", hexBig(got), hexBig(b.expect(0)), firstLine(err)), rep)
+		r.Violation("digest-mismatch/"+cls, fmt.Sprintf("in-circuit digest %v differs from native %v (%s)", fmtVals(got), fmtVals(b.expect(0)), firstLine(err)), rep)
 	case got == nil && err != nil && e.name != "engine" && strings.Contains(err.Error(), "is not satisfied"):
 		// the solver stopped at a violated constraint before it executed the tap;
 		// for the report, ask the test engine what the gadget computes
@@ -283,7 +298,7 @@ func (m *monitor) reportFailure(e engine, b batch, got []*big.Int, err error) {
 		if trun, _, perr := te.prepare(b.shape()); perr == nil {
 			ttag := nextTag()
 			_ = trun(b.assign(ttag, -1))
-			rep["circuit_digest_in_test_engine"] = hexBig(takeTap(ttag, 0))
+			rep["circuit_digest_in_test_engine"] = fmtVals(takeTap(ttag, 0))
 		}
 		r.Count("REJECTED-native-digest."+b.class(0)+"."+e.name, 1)
 		r.Violation("native-digest-rejected/"+cls, "the compiled circuit cannot be solved with the native digest as expected value: "+firstLine(err), rep)
